@@ -363,7 +363,9 @@ TRUSTS = ['none', 2, 3, 4, 5, 6, 'import-trust']
 def keys_case(draw):
     return {'state': draw(st.sampled_from(KEYSTATES)),
             'trust': draw(st.sampled_from(TRUSTS)),
-            'via': draw(st.sampled_from(['verify_file', 'load']))}
+            'via': draw(st.sampled_from(['verify_file', 'load'])),
+            # another, unrelated key imported as trusted afterwards
+            'then_trusted_other': draw(st.integers(0, 2)) == 0}
 
 
 def strat_keys(tier):
@@ -404,10 +406,14 @@ def run_keys(desc):
                 return ok(nontrivial=True, classes=('import-refused',))
             return violation(f'import of {state} key failed: {e}',
                              sig='import-failed:' + state)
+        if desc.get('then_trusted_other') and state != 'otherkey':
+            env.import_key(io.BytesIO(fx['other']['pub']), trust=True)
         trusted = trust in (4, 5, 6, 'import-trust')
         usable = state in ('valid', 'subkey')
         expect_accept = usable and trusted
         what = f'key state {state}, owner-trust {trust}, via {desc["via"]}'
+        if desc.get('then_trusted_other') and state != 'otherkey':
+            what += ', then another key imported with trust=True'
         m = ManifestFile()
         if desc['via'] == 'load':
             # the instance already holds a verified, signed Manifest
@@ -440,6 +446,8 @@ def run_keys(desc):
                              sig='exc:' + buckets.signature(e))
         classes = ['state:' + state, f'trust:{trust}',
                    'expect:' + ('accept' if expect_accept else 'reject')]
+        if desc.get('then_trusted_other') and state != 'otherkey':
+            classes.append('second-import-trusted')
         if outcome == 'accept' and not expect_accept:
             return violation(
                 f'{what}: signature accepted', sig=f'accepted:{state}:'
@@ -579,7 +587,8 @@ def run_bytes(desc):
 @st.composite
 def cli_case(draw):
     return {'manifest': draw(st.sampled_from(['good', 'tampered', 'other',
-                                              'unsigned'])),
+                                              'unsigned',
+                                              'unsigned+signed-sibling'])),
             's': draw(st.booleans()), 'P': draw(st.booleans()),
             'K': draw(st.sampled_from(['signer', 'other', 'none'])),
             'userhome': draw(st.sampled_from(['empty', 'signer-ultimate',
@@ -614,6 +623,15 @@ def run_cli(desc):
                 'DATA gone 1 MD5 00\n', '')
         elif desc['manifest'] == 'other':
             text = other['home'].clearsign(FILE_BODY)
+        elif desc['manifest'] == 'unsigned+signed-sibling':
+            # an unsigned top-level Manifest that refers to a properly
+            # signed Manifest next to it
+            import hashlib
+            sib = valid['home'].clearsign(FILE_BODY).encode('utf8')
+            with open(os.path.join(tree, 'Manifest.files'), 'wb') as f:
+                f.write(sib)
+            text = (f'MANIFEST Manifest.files {len(sib)} MD5 '
+                    f'{hashlib.md5(sib).hexdigest()}\n')
         else:
             text = FILE_BODY
         with open(os.path.join(tree, 'Manifest'), 'w') as f:
@@ -667,7 +685,8 @@ def run_cli(desc):
             keys = {'signer-ultimate': {'valid'}, 'others': {'other'},
                     'empty': set()}[desc['userhome']]
         signer = {'good': 'valid', 'tampered': 'valid', 'other': 'other',
-                  'unsigned': None}[desc['manifest']]
+                  'unsigned': None,
+                  'unsigned+signed-sibling': None}[desc['manifest']]
         if desc['P']:
             verified = False
             fails = False
@@ -679,6 +698,11 @@ def run_cli(desc):
             verified = good
             fails = not good
         expect = 1 if (fails or (desc['s'] and not verified)) else 0
+        if (desc['manifest'] == 'unsigned+signed-sibling' and not desc['s']
+                and not desc['P'] and 'valid' not in keys):
+            # whether a signed sub-Manifest must verify is not this check's
+            # business; only "-s means the top-level one is signed" is
+            return ok(classes=classes, dontcare=True)
         if (rc == 0) != (expect == 0):
             return violation(
                 f'{what}: exit status {rc!r}, expected {expect} (keys that '
